@@ -357,3 +357,59 @@ def pressure_loop_cases():
                 c["prog"]["bound"] = 400 + 40 * n * (4 if shape == "nested" else 1)
                 out.append(c)
     return out
+
+
+INT_ARITH = ["add", "adds", "sub", "subs", "mul", "muls", "div", "divs", "udiv", "udivs", "mod", "mods", "umod", "umods", "and", "ands", "or", "ors",
+             "xor", "xors", "lsh", "lshs", "rsh", "rshs", "ursh", "urshs"]
+INT_CMP = ["eq", "eqs", "ne", "nes", "lt", "lts", "ult", "ults", "le", "les", "ule", "ules", "gt", "gts", "ugt", "ugts", "ge", "ges", "uge", "uges"]
+
+
+def neutral_const_cases():
+    """every integer binary insn with a small constant (0, 1, -1, 2) as its FIRST and as its SECOND source, and with the same
+    register as both sources: the algebraic identities a simplifier may use hold for one operand position only (x - 0 but not
+    0 - x, x << 0 but not 0 << x, x / 1 but not 1 / x).  32-bit results are observed through a zero extension."""
+    out = []
+    X, RES, Y = 2, 3, 4
+    for op in INT_ARITH + INT_CMP:
+        r32 = op.endswith("s")            # 32-bit insn: the upper half of its result is not defined
+        shift = op.rstrip("s") in ("lsh", "rsh", "ursh")
+        for k in (0, 1, -1, 2):
+            for pos in ("first", "second", "same"):
+                if pos == "same" and k != 0:
+                    continue
+                for x in ((0, 1, 5, 31) if shift else (0, 7, -9, 1 << 35)):
+                    if shift and pos == "first" and not 0 <= x < (32 if op.endswith("s") else 64):
+                        continue
+                    if shift and pos == "second" and not 0 <= k < (32 if op.endswith("s") else 64):
+                        continue
+                    srcs = (I(k), R(X)) if pos == "first" else (R(X), I(k)) if pos == "second" else (R(X), R(X))
+                    items = [ins("mov", R(X), M("i64", 0, 1)), ins(op, R(RES), *srcs)]
+                    if r32:
+                        items += [ins("uext32", R(RES), R(RES))]
+                    items += [ins("mov", M("i64", 192, 1), R(RES)), {"op": "ret", "s": [R(RES)]}]
+                    insns, _ = progs.assemble(items)
+                    out.append(progs.family_case(insns, 4, (x & ((1 << 64) - 1)).to_bytes(8, "little")))
+    return out
+
+
+def loop_size_cases():
+    """a backward conditional branch over loop bodies of every size around the reach of a short jump: bodies made of insns whose
+    x86-64 encodings have 3, 4 and 7 bytes in all the mixes that step the body size byte by byte through 90..150 bytes (other
+    levels and targets scale the same sweep)."""
+    out = []
+    X, CNT, Y, LIM = 2, 3, 4, 5
+    for n4 in range(0, 44):
+        for n7 in (0, 1, 2, 3):
+            for n3 in (0, 1, 2):
+                for cmpform in ("imm", "reg"):
+                    if cmpform == "reg" and (n4 + n7 + n3) % 3:
+                        continue
+                    body = [ins("add", R(X), R(X), I(1))] * n4 + [ins("add", R(X), R(X), I(1000))] * n7 + [ins("mov", R(Y), R(X))] * n3
+                    items = [ins("mov", R(X), M("i64", 0, 1)), ins("mov", R(CNT), I(0)), ins("mov", R(Y), I(0)), ins("mov", R(LIM), I(3)), "lp"] + body + [
+                        ins("add", R(CNT), R(CNT), I(1)), br("blt", "lp", R(CNT), I(3) if cmpform == "imm" else R(LIM)),
+                        ins("add", R(X), R(X), R(Y)), ins("mov", M("i64", 192, 1), R(X)), {"op": "ret", "s": [R(X)]}]
+                    insns, _ = progs.assemble(items)
+                    c = progs.family_case(insns, 5, (7).to_bytes(8, "little"))
+                    c["prog"]["bound"] = 60 + 3 * (n4 + n7 + n3 + 3)
+                    out.append(c)
+    return out
